@@ -6,7 +6,9 @@
    was replayed on the instrumented code, the shared logger probed after every step.
    Stress cases: free-running goroutines, only the final probe.                              *)
 From Coq Require Import ZArith NArith List Bool Arith.
-From GT Require Import Base.Verdict Base.LogConc LogCtxModel.
+From GT Require Import Base.Verdict.
+From GT Require Import Base.LogConc.
+From GT Require Import LogCtxModel.
 Import ListNotations.
 
 (* one probe of one logger at the four levels.  Reg fs m: at level i (0 = Debug .. 3 = Error)
